@@ -934,6 +934,7 @@ impl Sink {
                 jstr(&o.request)
             )
             .unwrap();
+            self.vio.flush().unwrap();
         }
         if !self.seen.insert(fnv(&o.request)) {
             return;
@@ -1001,23 +1002,23 @@ fn scenarios(tier: &str) -> Vec<(&'static str, usize, usize, usize, &'static str
     if tier == "quick" {
         return quick;
     }
-    let mut v: Vec<(&'static str, usize, usize, usize, &'static str)> = quick.iter().map(|&(s, b, sp, c, p)| (s, b, sp, c * 10, p)).collect();
+    let mut v: Vec<(&'static str, usize, usize, usize, &'static str)> = quick.iter().map(|&(s, b, sp, c, p)| (s, b, sp, c * 8, p)).collect();
     v.extend(vec![
-        ("2/k.k/k.k", 3, 0, 40000, "-"),
-        ("2/w0/s0", 4, 1, 40000, "-"),
-        ("2/w0.w1/s0.S1", 3, 0, 40000, "-"),
-        ("2/s1.w0/s0.w1", 3, 0, 40000, "-"),
-        ("3/k/k/k", 3, 0, 40000, "-"),
-        ("3/w0/w0/s0", 2, 1, 40000, "-"),
-        ("3/w0/w1/s0.S1", 2, 0, 40000, "-"),
-        ("3/w0.j2/n.k.j2/s0", 2, 0, 40000, "-"),
-        ("4/w0/w0/w0/s0", 1, 0, 40000, "-"),
-        ("4/k/k/k/k", 2, 0, 40000, "-"),
-        ("4/j1/j2/j3/k", 2, 1, 40000, "-"),
-        ("reloc:3/w0/w0/g.s0.g", 2, 0, 40000, "-"),
-        ("reloc:4/k/k/k/L.g.U.g", 2, 0, 40000, "3"),
-        ("reloc:4/w0/w0/k/g.S0", 1, 1, 40000, "-"),
-        ("reloc:3/k.k/k/L.g.U.g.k", 2, 0, 40000, "2"),
+        ("2/k.k/k.k", 3, 0, 15000, "-"),
+        ("2/w0/s0", 4, 1, 15000, "-"),
+        ("2/w0.w1/s0.S1", 3, 0, 15000, "-"),
+        ("2/s1.w0/s0.w1", 3, 0, 15000, "-"),
+        ("3/k/k/k", 3, 0, 15000, "-"),
+        ("3/w0/w0/s0", 2, 1, 15000, "-"),
+        ("3/w0/w1/s0.S1", 2, 0, 15000, "-"),
+        ("3/w0.j2/n.k.j2/s0", 2, 0, 15000, "-"),
+        ("4/w0/w0/w0/s0", 1, 0, 15000, "-"),
+        ("4/k/k/k/k", 2, 0, 15000, "-"),
+        ("4/j1/j2/j3/k", 2, 1, 15000, "-"),
+        ("reloc:3/w0/w0/g.s0.g", 2, 0, 15000, "-"),
+        ("reloc:4/k/k/k/L.g.U.g", 2, 0, 15000, "3"),
+        ("reloc:4/w0/w0/k/g.S0", 1, 1, 15000, "-"),
+        ("reloc:3/k.k/k/L.g.U.g.k", 2, 0, 15000, "2"),
     ]);
     v
 }
@@ -1232,7 +1233,7 @@ pub fn run(args: &[String]) {
     }
     // 3. seeded random scenarios with PCT-style and uniform schedules
     let mut rng = Rng::from_env();
-    let nrand = if tier == "quick" { 1500 } else { 30000 };
+    let nrand = if tier == "quick" { 1500 } else { 20000 };
     for i in 0..nrand {
         let sc = Arc::new(random_scenario(&mut rng));
         let spur = if rng.chance(1, 3) { rng.range(1, 2) as usize } else { 0 };
